@@ -2,6 +2,7 @@ package main
 
 import (
 	"fmt"
+	"go/token"
 	"go/types"
 	"os"
 	"sort"
@@ -35,6 +36,7 @@ func checkC08(P *Prog, r *Result) {
 	})
 	r.floor("C08/write-effects", 80)
 
+	P.checkPoolNewFresh(r, "C08/pool-new-fresh")
 	// no-go: no goroutines, channels, or sync primitives other than Pool.Get/Put
 	nGo := 0
 	for _, fn := range fns {
@@ -354,4 +356,223 @@ func (P *Prog) condMentionsRole(cond ssa.Value, isRole func(*types.Var) bool, fn
 		return false
 	}
 	return walk(cond, 0)
+}
+
+// checkPoolNewFresh: what a sync.Pool's New function hands out shares no memory with anything else: the
+// object is allocated in New and nothing reference-like (slice, map, pointer, channel, func, interface holding
+// one) reaches it from outside the call - not from a package-level variable and not from a value captured by
+// the New closure (`newPool(proto)`: `v := proto; return &v` copies a slice *header*, so every pooled object
+// built from `make([]string, 0, 5)` writes into the same backing array from whichever goroutines hold them).
+func (P *Prog) checkPoolNewFresh(r *Result, rule string) {
+	n := 0
+	for _, fn := range P.Funcs {
+		eachInstr(fn, func(_ *ssa.BasicBlock, _ int, in ssa.Instruction) {
+			st, ok := in.(*ssa.Store)
+			if !ok {
+				return
+			}
+			fa, ok := st.Addr.(*ssa.FieldAddr)
+			if !ok {
+				return
+			}
+			_, f := fieldVar(fa)
+			if f == nil || f.Name() != "New" || typeStr(fa.X.Type()) != "*sync.Pool" {
+				return
+			}
+			var newFn *ssa.Function
+			switch y := cv(st.Val).(type) {
+			case *ssa.MakeClosure:
+				newFn, _ = y.Fn.(*ssa.Function)
+			case *ssa.Function:
+				newFn = y
+			}
+			n++
+			c := fmt.Sprintf("%s#Pool.New@%d", fname(fn), n)
+			if newFn == nil || newFn.Blocks == nil {
+				r.undecided(rule, c, P.ipos(in), "the New function of the pool is not a function literal of the module")
+				return
+			}
+			r.sawFunc(fname(newFn))
+			var bad []string
+			eachInstr(newFn, func(_ *ssa.BasicBlock, _ int, in2 ssa.Instruction) {
+				rt, ok := in2.(*ssa.Return)
+				if !ok || len(rt.Results) != 1 {
+					return
+				}
+				v := rt.Results[0]
+				if mi, ok := v.(*ssa.MakeInterface); ok {
+					v = mi.X
+				}
+				al, ok := v.(*ssa.Alloc)
+				if !ok || al.Parent() != newFn {
+					bad = append(bad, "New does not return an object it allocates itself ("+P.ipos(in2)+")")
+					return
+				}
+				// everything stored into the fresh object
+				var visit func(addr ssa.Value)
+				visit = func(addr ssa.Value) {
+					for _, rf := range *addr.Referrers() {
+						switch u := rf.(type) {
+						case *ssa.Store:
+							if u.Addr == addr {
+								if why := P.sharesMemory(u.Val, 0); why != "" {
+									bad = append(bad, "the new object is initialised with memory that exists outside the call ("+why+", "+P.ipos(u)+"): every object of the pool aliases it")
+								}
+							}
+						case *ssa.FieldAddr:
+							visit(u)
+						case *ssa.IndexAddr:
+							visit(u)
+						}
+					}
+				}
+				visit(al)
+			})
+			if len(bad) > 0 {
+				r.bad(rule, c, P.pos(newFn.Pos()), strings.Join(uniqSorted(bad), "; "))
+			} else {
+				r.ok(rule, c, P.pos(newFn.Pos()), "New allocates its result and stores nothing reference-like from outside into it")
+			}
+		})
+	}
+	r.floor(rule, 3)
+}
+
+// sharesMemory: v is (or contains) a reference to memory that exists independently of the current call:
+// a made slice/map/chan or an address that reaches here through a captured variable, a parameter or a
+// package-level variable. "" when v is a constant, a zero value, or built from such. depth 0 = inside New.
+func (P *Prog) sharesMemory(v ssa.Value, depth int) string {
+	if v == nil || depth > 6 {
+		return ""
+	}
+	if !typeHasRefs(v.Type(), 0) {
+		return ""
+	}
+	switch x := v.(type) {
+	case *ssa.Const:
+		return ""
+	case *ssa.MakeSlice, *ssa.MakeMap, *ssa.MakeChan, *ssa.MakeClosure:
+		if depth == 0 {
+			return "" // made inside New itself: fresh per call
+		}
+		return "a " + strings.TrimPrefix(fmt.Sprintf("%T", x), "*ssa.Make") + " made once, outside New"
+	case *ssa.Alloc:
+		if depth == 0 {
+			return ""
+		}
+		return "memory allocated once, outside New"
+	case *ssa.Slice:
+		return P.sharesMemory(x.X, depth)
+	case *ssa.ChangeType:
+		return P.sharesMemory(x.X, depth)
+	case *ssa.Convert:
+		return P.sharesMemory(x.X, depth)
+	case *ssa.MakeInterface:
+		return P.sharesMemory(x.X, depth)
+	case *ssa.UnOp:
+		if x.Op != token.MUL {
+			return ""
+		}
+		switch a := x.X.(type) {
+		case *ssa.Global:
+			return "the package-level variable " + a.Name()
+		case *ssa.FreeVar:
+			if b := freeVarBinding(a); b != nil {
+				if al, ok := b.(*ssa.Alloc); ok {
+					for _, st := range storesTo(al) {
+						if why := P.sharesMemory(st.Val, depth+1); why != "" {
+							return why
+						}
+					}
+					return ""
+				}
+				return P.sharesMemory(b, depth+1)
+			}
+			return "a captured variable"
+		case *ssa.Alloc:
+			// a local: whatever was stored into it (whole, or through its fields)
+			why := ""
+			var visit func(addr ssa.Value)
+			visit = func(addr ssa.Value) {
+				for _, rf := range *addr.Referrers() {
+					switch u := rf.(type) {
+					case *ssa.Store:
+						if u.Addr == addr && why == "" {
+							why = P.sharesMemory(u.Val, depth)
+						}
+					case *ssa.FieldAddr:
+						visit(u)
+					case *ssa.IndexAddr:
+						visit(u)
+					}
+				}
+			}
+			visit(a)
+			return why
+		}
+		return "memory read through a pointer"
+	case *ssa.Parameter:
+		fn := x.Parent()
+		idx := -1
+		for i, q := range fn.Params {
+			if q == x {
+				idx = i
+			}
+		}
+		nSites := 0
+		for _, caller := range P.Funcs {
+			why := ""
+			eachInstr(caller, func(_ *ssa.BasicBlock, _ int, in ssa.Instruction) {
+				ci := callOf(in)
+				if ci == nil || ci.static != originOf(fn) || idx < 0 || idx >= len(ci.args()) {
+					return
+				}
+				nSites++
+				if w := P.sharesMemory(ci.args()[idx], depth+1); w != "" && why == "" {
+					why = w + " (argument at " + P.ipos(in) + ")"
+				}
+			})
+			if why != "" {
+				return why
+			}
+		}
+		if nSites == 0 {
+			return "a parameter whose callers are not visible"
+		}
+		return ""
+	case *ssa.Phi:
+		for _, e := range x.Edges {
+			if why := P.sharesMemory(e, depth); why != "" {
+				return why
+			}
+		}
+		return ""
+	case *ssa.Call:
+		if depth == 0 {
+			return "" // produced by a call inside New (e.g. a constructor): owned by this object
+		}
+		return "the result of a call made once, outside New"
+	}
+	return ""
+}
+
+// typeHasRefs: values of the type can hold a reference to other memory.
+func typeHasRefs(t types.Type, depth int) bool {
+	if depth > 6 {
+		return true
+	}
+	switch u := t.Underlying().(type) {
+	case *types.Basic:
+		return u.Kind() == types.UnsafePointer
+	case *types.Struct:
+		for i := 0; i < u.NumFields(); i++ {
+			if typeHasRefs(u.Field(i).Type(), depth+1) {
+				return true
+			}
+		}
+		return false
+	case *types.Array:
+		return typeHasRefs(u.Elem(), depth+1)
+	}
+	return true
 }
